@@ -68,14 +68,16 @@ def build(ctx):
                    ('R7', r'pos_\.load\(std::memory_order_relaxed\)', 'self->pos_', 1),
                    ('R11', r'(?<![\w.>])kBufferSize\b', 'self->kBufferSize')])
     p = r.function(F, r'friend\s+void\s+swap\s*\([^)]*\)\s*noexcept', within=CLS)
+    X.inline_helpers(r, F, p, within=CLS, exclude={'swap', 'T', 'Index'})     # a private helper that exchanges one member is inlined (R19)
     ctx.emit('Arena_swap.body.inc', p, must_fire=['R7', 'R17'],
              subs=[('R1', r'using\s+std::swap;', '', 1),
+                   ('R9', r'const\s+\w+\s+tmp\s*=', 'const Index tmp =', 'opt'),
                    ('R7', r'(lhs|rhs)\.(pos_|allocatedSize_)\.load\(std::memory_order_(\w+)\)', r'A_LOADI(\1->\2, MO_\3)'),
                    ('R7', r'(lhs|rhs)\.buffers_\.load\(std::memory_order_(\w+)\)', r'A_LOADI(\1->buffers_table, MO_\2)'),
                    ('R7', r'(lhs|rhs)\.(pos_|allocatedSize_)\.store\(', r'A_STOREI(\1->\2, '),
                    ('R7', r'(lhs|rhs)\.buffers_\.store\(', r'A_STOREI(\1->buffers_table, '),
                    ('R7', r'std::memory_order_(\w+)', r'MO_\1'),
-                   ('R9', r'T\*\*\s+const\s+rhs_buffers', 'const Index rhs_buffers', 1),
+                   ('R9', r'T\*\*\s+const\s+rhs_buffers', 'const Index rhs_buffers', 'opt'),
                    ('R17', r'(?<![\w.>])swap\((lhs)\.(\w+),\s*(rhs)\.(\w+)\);', r'SWAP_Index(&lhs->\2, &rhs->\4);'),
                    ('R8', r'\b(lhs|rhs)\.(?=\w)', r'\1->', 'opt')])
     # the data members of the class must be exactly the ones the rendering knows (a new member would need a new SAME() clause)
